@@ -29,7 +29,7 @@ META['explanation'] += ' ' + "R1 accepts save / swap / restore of class level st
 
 META['explanation'] += ' ' + 'R6: a mutable container in a class body is never the fallback of an attribute the instances bind themselves (with a built-in example decided on every run).'
 
-META['explanation'] += ' ' + 'R7: no parameter default is a mutable container the function changes, returns, stores or hands on.'
+META['explanation'] += ' ' + 'R7: no parameter default is a mutable container the function changes, returns, stores or hands on. R8: no shallow copy.copy.'
 
 OBSERVERS = ['compose', 'ja3', 'hassh', 'hassh_server', 'fingerprints', 'key_bytes', 'key_tag', 'host_key_asdict',
              '_asdict', 'as_json', '_as_markdown', 'as_markdown', '__str__', '__eq__', '__lt__', '__hash__', 'identifier',
@@ -350,10 +350,35 @@ def mutable_parameter_defaults(ctx, report, RULE='C13.R7'):
     report.floor(RULE, 1500, 'parameters of the package')
 
 
+def shallow_copies(ctx, report, RULE='C13.R8'):
+    """``copy.copy(x)`` gives a new object whose members are the members of ``x``: for a vector that is a second vector over the
+    *same* item list (and the same parameter object), with its own size book-keeping - a default, a cached prototype or a
+    "copy" handed out that way shares its content with every other copy and goes out of step with it.  The package copies through
+    constructors and converters; every ``copy.copy`` (and ``.copy`` taken from the module as a value) is reported, ``copy.deepcopy``
+    is not."""
+    report.rule(RULE, 'objects are not duplicated with the shallow copy.copy (members - item lists, parameter objects - stay shared)')
+    n = 0
+    for f in ctx.model.functions():
+        if f.module.external:
+            continue
+        n += 1
+        for x in ast.walk(f.node):
+            if isinstance(x, ast.Attribute) and x.attr == 'copy' and isinstance(x.value, ast.Name) and x.value.id == 'copy':
+                report.add(RULE, '%s@copy.copy' % f.construct, 'copy.copy duplicates the outer object only: what it holds (the item list of a vector, a '
+                           'bytearray inside a message) is shared between the copies')
+    for m in ctx.model.repo_modules():
+        for x in ast.walk(m.tree):
+            if isinstance(x, ast.ImportFrom) and x.module == 'copy' and any(a.name == 'copy' for a in x.names):
+                report.add(RULE, '%s@from-copy-import-copy' % m.relpath, 'the shallow copy function is imported by name')
+    report.count(RULE, n)
+    report.floor(RULE, 800, 'functions of the package')
+
+
 def check(ctx, report):
     model, it = ctx.model, ctx.interp
     class_level_fallbacks(ctx, report)
     mutable_parameter_defaults(ctx, report)
+    shallow_copies(ctx, report)
     report.rule('C13.R1', 'observers do not write to self, to class level state or to their arguments')
     report.rule('C13.R2', 'no attr.ib default shares a mutable object between instances')
     report.rule('C13.R3', 'the parsed object does not alias the input buffer')
